@@ -143,6 +143,7 @@ class World(object):
         elif op[0] == 'unlink': self.link(op[1], op[2], False)
         elif op[0] == 'createT_link': self.create('T', None); self.link(op[1], len(self.reg) - 1, True)
         elif op[0] == 'setref': self.setref(op[1], op[2])
+        elif op[0] == 'query': self.db.select('select count(*) from "G"')      # a read through the database: auto-flush unless flush is disabled (before_* hooks)
 
     # -- hooks -----------------------------------------------------------------------------------------------------------
     def hook(self, phase, kind, obj):
@@ -198,11 +199,13 @@ def gen_case(rng, shape=None):
     horizon = n + 3
     never_deleted = [i for i in range(n) if i not in deleted and cls[i] != 'I']
     action = rng.choice(['flush', 'flush', 'commit', 'entity_flush'])
+    with_queries = rng.random() < 0.25
     def body():
         ops = []
         for _ in range(rng.choice([0, 1, 1, 1, 2, 3])):
             r = rng.random()
-            if r < 0.1:
+            if r < 0.06 and with_queries: ops.append(['query'])
+            elif r < 0.1:
                 if never_deleted: ops.append(['read', rng.choice(never_deleted)])
             elif r < 0.4:
                 t = rng.randrange(horizon) if rng.random() < 0.25 else rng.choice([i for i in range(n) if i not in deleted] or [0])
@@ -246,6 +249,7 @@ def model_ops(ops):
         elif op[0] in ('link', 'unlink'): out.append([op[0], op[1], op[2]])
         elif op[0] == 'createT_link': out.append(['create']); out.append(['linkNewItem', op[1]])
         elif op[0] == 'setref': out.append(['modify', op[1]])
+        elif op[0] == 'query': out.append(['read', 0])          # only valid inside before_* hooks (flush disabled): see check_case
     return out
 
 
@@ -274,6 +278,11 @@ SHAPES = [
      'script': [{'phase': 'before', 'kind': 'delete', 'obj': 2, 'calls': [[['create', 'G', None, 1]]], 'rest': []}], 'action': 'commit', 'pick': 0},
     {'name': 'after_update changes links and a reference', 'init': [['G', None], ['G', None], ['I', 0], ['T', None]], 'links0': [[0, 3]], 'pre': [['modify', 2]],
      'script': [{'phase': 'after', 'kind': 'update', 'obj': 2, 'calls': [[['unlink', 0, 3], ['link', 1, 3], ['setref', 2, 1]]], 'rest': []}], 'action': 'commit', 'pick': 0},
+    {'name': 'after_insert queries the database after modifying another object (nested flush)', 'init': [['G', None]], 'links0': [], 'pre': [['create', 'G', None], ['create', 'G', None]],
+     'script': [{'phase': 'after', 'kind': 'insert', 'obj': 1, 'calls': [[['modify', 2], ['modify', 0], ['query']]], 'rest': []},
+                {'phase': 'after', 'kind': 'update', 'obj': 2, 'calls': [[['modify', 1], ['query']]], 'rest': []}], 'action': 'commit', 'pick': 0},
+    {'name': 'before_update queries the database (flush disabled)', 'init': [['G', None], ['G', None]], 'links0': [], 'pre': [['modify', 0]],
+     'script': [{'phase': 'before', 'kind': 'update', 'obj': 0, 'calls': [[['modify', 1], ['query']]], 'rest': []}], 'action': 'flush', 'pick': 0},
     {'name': 'hook touches a deleted object', 'init': [['G', None], ['G', None]], 'pre': [['delete', 1], ['modify', 0]],
      'script': [{'phase': 'before', 'kind': 'update', 'obj': 0, 'calls': [[['modify', 1]]], 'rest': []}], 'action': 'flush', 'pick': 0},
 ]
@@ -360,6 +369,8 @@ def run_real(W, case):
                 res['error'] = 'limit' if 'Recursion depth limit' in str(e) else type(e).__name__
             except (core.OperationWithDeletedObjectError, HookScriptError) as e:
                 res['error'] = 'hookRaised'
+            except Exception as e:
+                res['error'] = 'unexpected:' + type(e).__name__
             res['log'] = [list(x) for x in W.log]
             evs = W.tr.db_events(W.tr.since(m2))
             res['traced_writes'] = len([e for e in evs if e['call'] == 'execute' and e['kind'] in ('insert', 'update', 'delete')])
@@ -387,6 +398,8 @@ def run_real(W, case):
         else: res['commit_error'] = type(e).__name__ + ': ' + str(e)[:200]
     except Exception as e:            # any other error at commit after a successful flush
         res['commit_error'] = type(e).__name__ + ': ' + str(e)[:200]
+        try: rollback()
+        except Exception: pass
     res['db'] = {'G': dict(raw.execute('select id, a from "G"').fetchall()), 'I': dict(raw.execute('select id, a from "I"').fetchall()),
                  'T': dict(raw.execute('select id, a from "T"').fetchall()),
                  'Iref': dict(raw.execute('select id, g from "I"').fetchall()),
@@ -398,11 +411,12 @@ def run_real(W, case):
 # oracle
 # ---------------------------------------------------------------------------------------------------------------------
 
-def once_oracle(log, complete):
+def once_oracle(log, complete, nested=False):
     """O1/O2 on a hook/statement log; returns a list of (key, description, event index)"""
     bad = []
     armed = {}       # (kind, oid) -> index of the before entry waiting for its statement
-    written = {}     # (kind, oid) -> index of the statement waiting for its after entry
+    written = {}     # (kind, oid) -> indices of the statements waiting for their after entry (a stack: a query inside an after_* hook
+                     #               flushes recursively, so an object can be written again before the after-hook of its first statement runs)
     for i, (ph, kind, oid) in enumerate(log):
         if ph in ('linkIns', 'linkDel'): continue
         k = (kind, oid)
@@ -412,14 +426,15 @@ def once_oracle(log, complete):
         elif ph == 'stmt':
             if k not in armed: bad.append(('stmt-without-before', '%s statement without a preceding before_%s' % (kind.upper(), kind), i))
             else: del armed[k]
-            if k in written: bad.append(('stmt-without-after', 'second %s statement before the after_%s of the first' % (kind.upper(), kind), i))
-            written[k] = i
+            if written.get(k) and not nested: bad.append(('stmt-without-after', 'second %s statement before the after_%s of the first' % (kind.upper(), kind), i))
+            written.setdefault(k, []).append(i)
         else:
-            if k not in written: bad.append(('after-without-stmt', 'after_%s without a statement' % kind, i))
-            else: del written[k]
+            if not written.get(k): bad.append(('after-without-stmt', 'after_%s without a statement' % kind, i))
+            else: written[k].pop()
     if complete:
         for k, i in armed.items(): bad.append(('before-without-stmt', 'before_%s entered but the object was not written' % k[0], i))
-        for k, i in written.items(): bad.append(('stmt-without-after', '%s statement without an after_%s' % (k[0].upper(), k[0]), i))
+        for k, l in written.items():
+            for i in l: bad.append(('stmt-without-after', '%s statement without an after_%s' % (k[0].upper(), k[0]), i))
     return bad
 
 
@@ -474,10 +489,15 @@ def check_case(ctx, W, case, pending):
     if any(e[2] < n_init and e[2] not in queued0 for e in befores): ctx.count('before-hook-of-object-queued-by-a-hook')
     if case['action'] == 'entity_flush' and len(befores) > 1: ctx.count('entity_flush:with-principal-objects')
     inp = dict(brief(case), name=name)
+    nested = any(op[0] == 'query' for e in case['script'] if e['phase'] == 'after' for c in (e['calls'] + [e['rest']]) for op in c)
+    if res['error'] and res['error'].startswith('unexpected:'):
+        ctx.violation('flush raised %s although the hooks only read, assign, create and link' % res['error'][11:], inp,
+                      observed={'exception': res['error'][11:], 'log_tail': log[-8:]}, expected='no exception', key='flush:unexpected-exception:' + res['error'][11:])
+        return
     # O1/O2
     complete = res['error'] is None
     if res['error'] in (None, 'limit'):
-        for key, what, i in once_oracle(log, complete):
+        for key, what, i in once_oracle(log, complete, nested):
             ctx.violation('lifecycle hooks and statements are not one-to-one: ' + what, inp,
                           observed={'log': log[max(0, i - 6): i + 4], 'at': log[i]}, expected='once-before / once-after per statement',
                           key=shrink_key(case, res, key))
@@ -486,7 +506,7 @@ def check_case(ctx, W, case, pending):
         ctx.divergence('SQLite statement trace and the recording connection disagree on the number of write statements', inp,
                        model=len(stmts), impl=res.get('traced_writes'))
     # O4
-    if res['error'] == 'limit' and nrounds != 50:
+    if res['error'] == 'limit' and (nrounds != 50 if not nested else nrounds < 50):
         ctx.violation('the recursion-limit error was raised after %d rounds' % nrounds, inp, observed=nrounds, expected=50, key='limit-rounds')
     if res['error'] is None and case['action'] != 'entity_flush' and (res['pending_after'] or res['final']['modified']):
         ctx.violation('flush() returned with changes still pending', inp, observed=res['final'], expected='nothing pending', key='flush:pending-left')
@@ -504,7 +524,7 @@ def check_case(ctx, W, case, pending):
         elif res.get('commit_error'):
             ctx.violation('commit after the flush failed', inp, observed=res['commit_error'], expected='commit', key='commit-error')
         else:
-            extra = once_oracle(res['commit_log'], True)
+            extra = once_oracle(res['commit_log'], True, nested)
             for key, what, i in extra:
                 ctx.violation('lifecycle hooks and statements are not one-to-one (including the commit): ' + what, inp,
                               observed={'log': res['commit_log'][max(0, i - 6): i + 4]}, expected='once-before / once-after per statement',
@@ -536,6 +556,10 @@ def check_case(ctx, W, case, pending):
         prev = ph
     script = [{'before': e['phase'] == 'before', 'kind': e['kind'], 'obj': e['obj'],
                'calls': [model_ops(c) for c in e['calls']], 'rest': model_ops(e['rest'])} for e in case['script']]
+    if any(op[0] == 'query' for e in case['script'] if e['phase'] == 'after' for c in (e['calls'] + [e['rest']]) for op in c):
+        # a query inside an after_* hook flushes recursively (nested rounds): not in the model — these cases are judged by the oracle only
+        ctx.count('oracle-only:query-inside-after-hook'); return
+    if any(op[0] == 'query' for e in case['script'] for c in (e['calls'] + [e['rest']]) for op in c): ctx.count('query-inside-before-hook')
     if case['action'] == 'entity_flush':
         req = {'op': 'entityFlush', 'state': res['init_state'], 'script': script, 'bfuel': 100000, 'obj': res['target'],
                'refs': res['refs'], 'saved': [e[2] for e in stmts]}
